@@ -13,6 +13,7 @@ bootstrap.ensure()
 
 ID = "C15"
 LEVEL = "exploration"
+TECHNIQUE = "runtime monitoring: locked-node identity monitor after every factory call + evaluated transfer round trips"
 RULE = (
     "seeded random base trees with chains of transfers among a SQL engine and two iteration engines interleaved with "
     "operations, materializations and shared leaves (as in C03).  On every intermediate relation x: "
